@@ -12,6 +12,7 @@ import itertools
 import z3
 
 FIN, NAN, PINF, NINF, MASKED = 0, 1, 2, 3, 4
+CONGRUENCE_TIMEOUT_MS = 3000
 KNAMES = {FIN: "fin", NAN: "nan", PINF: "+inf", NINF: "-inf", MASKED: "masked"}
 
 
@@ -521,6 +522,19 @@ def num_neg(a):
     return SNum(k, -a.v, is_int=a.is_int, is_numpy=a.is_numpy)
 
 
+def norm_kind(x):
+    """replace a symbolic kind term by a constant when the path condition and facts decide it (keeps terms small)"""
+    if isinstance(x.k, int):
+        return x
+    k = z3.simplify(x.k)
+    if z3.is_int_value(k):
+        return SNum(k.as_long(), x.v, is_int=x.is_int, is_numpy=x.is_numpy)
+    eng = CTX.engine
+    if eng is not None and eng.entails(k == FIN, timeout_ms=CONGRUENCE_TIMEOUT_MS):
+        return SNum(FIN, x.v, is_int=x.is_int, is_numpy=x.is_numpy)
+    return SNum(k, x.v, is_int=x.is_int, is_numpy=x.is_numpy)
+
+
 def num_sub(a, b):
     return num_add(a, num_neg(b))
 
@@ -569,6 +583,14 @@ def num_div(a, b):
               (a.isinf(), NINF),
               (b.isinf(), FIN)], FIN)
     bv = b.rv()
+    if not isinstance(k, int):
+        k = z3.simplify(k)
+        if z3.is_int_value(k):
+            k = k.as_long()
+        elif CTX.engine is not None and CTX.engine.entails(k == FIN, timeout_ms=CONGRUENCE_TIMEOUT_MS):
+            k = FIN
+    if isinstance(k, int) and k == FIN and (CTX.engine is not None and CTX.engine.entails(z3.Not(bz(bzero)), timeout_ms=CONGRUENCE_TIMEOUT_MS)):
+        return SNum(FIN, a.rv() / bv, is_int=False, is_numpy=a.is_numpy or b.is_numpy)
     safe = Ite(bzero, z3.RealVal(1), bv)
     v = Ite(b.isinf(), z3.RealVal(0), a.rv() / safe)
     return SNum(k, v, is_int=False, is_numpy=a.is_numpy or b.is_numpy)
@@ -1396,15 +1418,23 @@ def sum_atom(axes, term_fn, integer=False):
         if ts.as_fraction() == 0 if z3.is_rational_value(ts) else ts.as_long() == 0:
             return toz(0, "int" if integer else "real")
     R = rng(idx)
-    if eng.entails(z3.Implies(R, t == 0)):
-        return toz(0, "int" if integer else "real")
+    zero = toz(0, "int" if integer else "real")
+    if pointwise_equal(eng, R, t, zero):
+        return zero
+    if not _mentions(ts, idx):
+        # constant summand c: the sum is c * (number of index points)
+        n = None
+        for ax in axes:
+            sz = ax.size.v if integer else (z3.ToReal(ax.size.v) if z3.is_int(ax.size.v) else ax.size.v)
+            n = sz if n is None else n * sz
+        return ts * n if n is not None else ts
     for at in CTX.atoms:
         if at.kind == "sum" and len(at.axes) == len(axes) and all(a is b for a, b in zip(at.axes, axes)) and at.extra == integer:
             t2 = at.fn(idx)
             t2 = toz(t2, "int" if integer else "real")
             if not integer and z3.is_int(t2):
                 t2 = z3.ToReal(t2)
-            if eng.entails(z3.Implies(R, t == t2)):
+            if pointwise_equal(eng, R, t, t2):
                 return at.const
     c = CTX.fresh("sum", "int" if integer else "real")
     at = Atom("sum", tuple(axes), term_fn, c, extra=integer)
@@ -1416,6 +1446,66 @@ def sum_atom(axes, term_fn, integer=False):
     CTX.atoms.append(at)
     # R1 linearity against existing atoms is established lazily by link_atoms() at proof time
     return c
+
+
+_PURE_OPS = None
+
+
+def _pure_arith(term):
+    """True if term is built from +, -, *, /, numerals, constants and uninterpreted applications only
+    (no if-then-else, no boolean structure): equality of such terms is decided by their normal form"""
+    global _PURE_OPS
+    if _PURE_OPS is None:
+        _PURE_OPS = {z3.Z3_OP_ADD, z3.Z3_OP_SUB, z3.Z3_OP_MUL, z3.Z3_OP_DIV, z3.Z3_OP_UMINUS, z3.Z3_OP_TO_REAL,
+                     z3.Z3_OP_ANUM, z3.Z3_OP_UNINTERPRETED, z3.Z3_OP_POWER}
+    seen = set()
+    stack = [term]
+    while stack:
+        t = stack.pop()
+        if t.get_id() in seen:
+            continue
+        seen.add(t.get_id())
+        if not z3.is_app(t) or z3.is_bool(t):
+            return False
+        k = t.decl().kind()
+        if k not in _PURE_OPS:
+            return False
+        stack.extend(t.children())
+    return True
+
+
+def _normal(term):
+    return z3.simplify(term, som=True, arith_lhs=False, expand_power=True)
+
+
+def pointwise_equal(eng, R, t, t2):
+    """is R => t == t2 entailed?  normal forms first; the solver only for terms with case structure"""
+    if t.eq(t2):
+        return True
+    n1, n2 = _normal(t), _normal(t2)
+    if n1.eq(n2):
+        return True
+    d = _normal(n1 - n2)
+    if z3.is_rational_value(d) or z3.is_int_value(d):
+        return d.as_fraction() == 0 if z3.is_rational_value(d) else d.as_long() == 0
+    if _pure_arith(n1) and _pure_arith(n2):
+        return False        # different polynomials: treated as different (precision only)
+    return eng.entails(z3.Implies(R, t == t2), timeout_ms=CONGRUENCE_TIMEOUT_MS)
+
+
+def _mentions(term, idx):
+    ids = {i.get_id() for i in idx}
+    seen = set()
+    stack = [term]
+    while stack:
+        t = stack.pop()
+        if t.get_id() in seen:
+            continue
+        seen.add(t.get_id())
+        if t.get_id() in ids:
+            return True
+        stack.extend(t.children())
+    return False
 
 
 def count_atom(axes, cond_fn):
@@ -1447,27 +1537,69 @@ def domain_size_facts(axes, c_total=None):
     return []
 
 
-def fn_atom(name, arr, params=(), result_int=False):
-    """opaque functional of an array (np.median, np.min, Agg, spearmanr ...): congruent in the array"""
+def _same_domains(a_axes, b_axes):
+    return len(a_axes) == len(b_axes) and all(a is b for a, b in zip(a_axes, b_axes))
+
+
+def _arrs_congruent(at, arrs, idx):
+    """z3 Bool: the arrays of atom `at` and `arrs` select the same points and hold the same values there"""
+    conds = []
+    for (sel2, get2), arr in zip(at.fn, arrs):
+        g, sel = arr._snapshot(), arr.sel
+        s1 = sel(idx) if sel else True
+        s2 = sel2(idx) if sel2 else True
+        e1, e2 = SNum.lift(_numof(g(idx))), SNum.lift(_numof(get2(idx)))
+        conds.append(And(bz(bz(s1) == bz(s2)), Implies(s1, num_eq_term(e1, e2))))
+    return bz(And(*conds))
+
+
+def fn_atom(name, arrs, params=(), kinds=(FIN, NAN, PINF, NINF)):
+    """opaque scalar functional of one or several aligned arrays (np.median, np.min, Agg, spearmanr ...):
+    congruent in its arguments (R2) -- equal arguments give the same value, nothing else is known"""
     use("functional:" + name)
+    if isinstance(arrs, SArr):
+        arrs = (arrs,)
     eng = CTX.engine
-    idx = _fresh_idx(arr.axes)
-    g = arr._snapshot()
-    sel = arr.sel
+    axes = arrs[0].axes
+    for a in arrs[1:]:
+        if not _same_domains(axes, a.axes):
+            raise Unsupported("functional of arrays over different domains")
+    idx = _fresh_idx(axes)
     for at in CTX.atoms:
-        if at.kind == "fn:" + name and at.extra == params and len(at.axes) == len(arr.axes) and all(a is b for a, b in zip(at.axes, arr.axes)):
-            s2, e2 = at.fn(idx)
-            s1 = sel(idx) if sel else True
-            e1 = SNum.lift(_numof(g(idx)))
-            if eng.entails(z3.Implies(rng(idx), bz(And(bz(bz(s1) == bz(s2)), Implies(s1, num_eq_term(e1, e2)))))):
+        if at.kind == "fn:" + name and at.extra == params and _same_domains(at.axes, axes) and len(at.fn) == len(arrs):
+            if eng.entails(z3.Implies(rng(idx), _arrs_congruent(at, arrs, idx)), timeout_ms=CONGRUENCE_TIMEOUT_MS):
                 return at.const
     ck = CTX.fresh("fk_" + name, "int")
     cv = CTX.fresh("fv_" + name, "real")
-    res = SNum(ck, cv)
-    CTX.facts.append(z3.And(ck >= 0, ck <= 3))
-    at = Atom("fn:" + name, tuple(arr.axes), lambda idx: ((sel(idx) if sel else True), SNum.lift(_numof(g(idx)))), res, extra=params)
+    res = SNum(ck, cv) if len(kinds) > 1 else SNum(kinds[0], cv)
+    if len(kinds) > 1:
+        CTX.facts.append(z3.Or(*[ck == k for k in kinds]))
+    at = Atom("fn:" + name, tuple(axes), [(a.sel, a._snapshot()) for a in arrs], res, extra=params)
     CTX.atoms.append(at)
     return res
+
+
+def arrfn_atom(name, arr, params=(), kinds=(FIN,)):
+    """opaque array-valued function of an array over the same index domain (np.sort, np.argsort ...): congruent"""
+    use("functional:" + name)
+    eng = CTX.engine
+    idx = _fresh_idx(arr.axes)
+    for at in CTX.atoms:
+        if at.kind == "afn:" + name and at.extra == params and _same_domains(at.axes, arr.axes):
+            if eng.entails(z3.Implies(rng(idx), _arrs_congruent(at, (arr,), idx)), timeout_ms=CONGRUENCE_TIMEOUT_MS):
+                return at.const
+    n = next(CTX.counter)
+    sorts = [z3.IntSort()] * len(arr.axes)
+    fv = z3.Function("afn_%s!%d_v" % (name, n), *(sorts + [z3.RealSort()]))
+    if len(kinds) == 1:
+        get = lambda i: SNum(kinds[0], fv(*i))
+    else:
+        fk = z3.Function("afn_%s!%d_k" % (name, n), *(sorts + [z3.IntSort()]))
+        get = lambda i: SNum(fk(*i), fv(*i))
+    out = SArr(arr.axes, get, "float", arr.sel, None, flat=arr.flat)
+    at = Atom("afn:" + name, tuple(arr.axes), [(arr.sel, arr._snapshot())], out, extra=params)
+    CTX.atoms.append(at)
+    return out
 
 
 def _numof(e):
@@ -1514,26 +1646,34 @@ def arr_sum(a, axis=None, skip_nan=False, masked=None):
     # kinds of the elements: counts of NaN / +inf / -inf among guarded elements
     def cnt(kindpred):
         return count_atom(a.axes, lambda idx: And(guard(idx), kindpred(_elem_num(g(idx)))))
-    probe = _elem_num(g(_fresh_idx(a.axes, "p")))
-    k = FIN
+    pidx = _fresh_idx(a.axes, "p")
+    probe = _elem_num(g(pidx))
+    hyp = z3.And(rng(pidx), bz(guard(pidx)))
+
+    def possible(pred):
+        if pred is False:
+            return False
+        if pred is True:
+            return True
+        return not CTX.engine.entails(z3.Implies(hyp, z3.Not(bz(pred))))
     cases = []
-    if not (probe.isnan_raw() is False) and not skip_nan:
+    if not skip_nan and possible(probe.isnan_raw()):
         cases.append((bz(cnt(lambda e: e.isnan_raw()).v > 0), NAN))
-    has_p = not (probe.ispinf() is False)
-    has_n = not (probe.isninf() is False)
+    has_p = possible(probe.ispinf())
+    has_n = possible(probe.isninf())
     if has_p or has_n:
         np_ = cnt(lambda e: e.ispinf()).v if has_p else z3.IntVal(0)
         nn_ = cnt(lambda e: e.isninf()).v if has_n else z3.IntVal(0)
         cases.append((bz(z3.And(np_ > 0, nn_ > 0)), NAN))
         cases.append((bz(np_ > 0), PINF))
         cases.append((bz(nn_ > 0), NINF))
-    if not (probe.ismasked() is False):
+    if possible(probe.ismasked()):
         raise Unsupported("masked elements inside an array")
     k = kite(cases, FIN)
     if use_mask:
         n_unmasked = count_atom(a.axes, guard)
         k = kite([(bz(zeq(n_unmasked.v, 0)), MASKED)], k)
-    return SNum(k, s)
+    return norm_kind(SNum(k, s))
 
 
 def arr_count(a, skip_nan=False):
